@@ -30,6 +30,10 @@ where
     // if an updater thread is already running. We use try_lock instead
     // of lock to error out immediately.
     let lock = updater_lock().try_lock();
+    #[cfg(feature = "verif-hooks")]
+    crate::verif::sync_event(crate::verif::SyncEvent::UpdTry(lock.is_ok()));
+    #[cfg(feature = "verif-hooks")]
+    let _verif_held = lock.as_ref().ok().map(|_| crate::verif::UpdHeld::new());
     match lock {
         Ok(lock) => f(&lock),
         Err(std::sync::TryLockError::WouldBlock) => {
